@@ -113,6 +113,8 @@ oscore_hkdf_expand(cose_hkdf_alg_t hkdf_alg,
   coap_bin_const_t *hkdf = NULL;
   cose_hmac_alg_t hmac_alg;
 
+  if (!aggregate_buffer || !out_buffer)
+    goto fail;
   if (!cose_get_hmac_alg_for_hkdf(hkdf_alg, &hmac_alg))
     goto fail;
   /* Compose T(1) */
